@@ -229,33 +229,54 @@ fn range_json(r: &Value) -> Value {
     json!([r["start"]["line"], r["start"]["character"], r["end"]["line"], r["end"]["character"]])
 }
 
-async fn lsp_call(service: &mut LspService<incan::lsp::IncanLanguageServer>, req: Request) -> Value {
-    match service.call(req).await {
-        Ok(Some(resp)) => {
-            let (_, body) = resp.into_parts();
-            match body {
-                Ok(v) => v,
-                Err(e) => json!({"error": e.to_string()}),
-            }
+/// Run one request/notification to completion while draining the client socket (the server's
+/// `client.*().await` calls complete only when the socket is read); server->client messages go to `inbox`.
+async fn lsp_call(
+    service: &mut LspService<incan::lsp::IncanLanguageServer>,
+    socket: &mut tower_lsp::ClientSocket,
+    inbox: &mut Vec<Request>,
+    req: Request,
+) -> Value {
+    let mut fut = Box::pin(service.call(req));
+    for _ in 0..100_000 {
+        if let std::task::Poll::Ready(r) = futures_util::poll!(fut.as_mut()) {
+            return match r {
+                Ok(Some(resp)) => {
+                    let (_, body) = resp.into_parts();
+                    match body {
+                        Ok(v) => v,
+                        Err(e) => json!({"error": e.to_string()}),
+                    }
+                }
+                Ok(None) => Value::Null,
+                Err(_) => json!({"error": "service exited"}),
+            };
         }
-        Ok(None) => Value::Null,
-        Err(_) => json!({"error": "service exited"}),
+        while let std::task::Poll::Ready(Some(m)) = futures_util::poll!(socket.next()) {
+            inbox.push(m);
+        }
+        tokio::task::yield_now().await;
     }
+    json!({"error": "handler did not complete"})
 }
 
 async fn lsp_case(case: &Value) -> Value {
     let text = case["text"].as_str().unwrap_or("");
     let uri = "file:///c19-no-such-dir/main.incn";
     let (mut service, mut socket) = LspService::new(incan::lsp::IncanLanguageServer::new);
+    let mut inbox: Vec<Request> = Vec::new();
     let init = Request::build("initialize").id(1).params(json!({"capabilities": {}})).finish();
-    let caps = lsp_call(&mut service, init).await;
-    lsp_call(&mut service, Request::build("initialized").params(json!({})).finish()).await;
+    let caps = lsp_call(&mut service, &mut socket, &mut inbox, init).await;
+    lsp_call(&mut service, &mut socket, &mut inbox, Request::build("initialized").params(json!({})).finish()).await;
     let open = Request::build("textDocument/didOpen")
         .params(json!({"textDocument": {"uri": uri, "languageId": "incan", "version": 1, "text": text}}))
         .finish();
-    lsp_call(&mut service, open).await;
+    lsp_call(&mut service, &mut socket, &mut inbox, open).await;
+    while let std::task::Poll::Ready(Some(m)) = futures_util::poll!(socket.next()) {
+        inbox.push(m);
+    }
     let mut diags: Vec<Value> = Vec::new();
-    while let std::task::Poll::Ready(Some(req)) = futures_util::poll!(socket.next()) {
+    for req in inbox.drain(..) {
         if req.method() != "textDocument/publishDiagnostics" {
             continue;
         }
@@ -276,8 +297,8 @@ async fn lsp_case(case: &Value) -> Value {
     let mut answers: Vec<Value> = Vec::new();
     for (i, pos) in case["positions"].as_array().cloned().unwrap_or_default().iter().enumerate() {
         let params = json!({"textDocument": {"uri": uri}, "position": {"line": pos[0], "character": pos[1]}});
-        let h = lsp_call(&mut service, Request::build("textDocument/hover").id(100 + 2 * i as i64).params(params.clone()).finish()).await;
-        let d = lsp_call(&mut service, Request::build("textDocument/definition").id(101 + 2 * i as i64).params(params).finish()).await;
+        let h = lsp_call(&mut service, &mut socket, &mut inbox, Request::build("textDocument/hover").id(100 + 2 * i as i64).params(params.clone()).finish()).await;
+        let d = lsp_call(&mut service, &mut socket, &mut inbox, Request::build("textDocument/definition").id(101 + 2 * i as i64).params(params).finish()).await;
         let hr = if h.get("range").map(|r| r.is_object()).unwrap_or(false) { range_json(&h["range"]) } else { Value::Null };
         let dr = if d.get("range").map(|r| r.is_object()).unwrap_or(false) { range_json(&d["range"]) } else { Value::Null };
         answers.push(json!([hr, dr, h.get("error").cloned().unwrap_or(Value::Null), d.get("error").cloned().unwrap_or(Value::Null)]));
